@@ -688,3 +688,5 @@ CHECKS["C08"]["required_classes"]["all"] += ["work-area-had-leftovers-under-the-
 CHECKS["C11"]["required_classes"]["all"] += ["free-running:hook-rounds-while-serving,relative-base-directory"]
 CHECKS["C20"]["required_classes"]["all"] += ["host-wall-clock-stepped-back-while-the-module-runs"]
 CHECKS["C17"]["required_classes"]["all"] += ["accepted-password-with-separator-byte:parts-probed"]
+CHECKS["C09"]["jobs"].append(J("dir-identity", VTRACE, "TestC09DirIdentity", {"shards": 4, "checks": 12}, {"shards": 16, "checks": 300}))
+CHECKS["C09"]["required_classes"]["all"] += ["acknowledged-change-after-the-base-directory-was-replaced:relink"]
